@@ -706,6 +706,12 @@ def rule_outputs_reset(db, chk, cfg, entries, rule="OUTPUT.reset", only=None):
                     fills = any(y.get("kind") == "CXXMemberCallExpr" and db.callee(y)[0] in ("emplace_back", "push_back", "insert") and
                                 canon(db.member_base(y)).replace("(", "").replace(")", "").replace("*", "") in (alias, "this->" + alias)
                                 for g in db.funcs if g.cls == f.cls and g.body is not None and not g.is_pattern for y in walk(g.body))
+                    # ... or by handing `*alias` to a function that fills it (the clean-up union writes into *solution_tree): the paths of the
+                    # member function that return before that call leave the caller's container as it was
+                    fills = fills or any(y.get("kind") in ("CallExpr", "CXXMemberCallExpr") and
+                                         any(_u(a).get("kind") == "UnaryOperator" and _u(a).get("opcode") == "*" and
+                                             canon(kids(_u(a))[0]).replace("(", "").replace(")", "") in (alias, "this->" + alias) for a in kids(y)[1:])
+                                         for g in db.funcs if g.cls == f.cls and g.body is not None and not g.is_pattern for y in walk(g.body))
                     if fills:
                         reset_seen = False
                         for s0 in kids(f.body):
